@@ -934,6 +934,14 @@ Example unclamped_start_refuted :
   /\ st_mem (fold_left (step (tb_prog (2 * SCALE))) [(0, false); (0, false)]%nat s) LTok = 2 * SCALE.
 Proof. vm_compute. split; [intros H; apply H; reflexivity|reflexivity]. Qed.
 
+(* the builder's default floor: max_budget 4 with min_budget unset runs with floor 4 (a refused
+   withdrawal at factor 0 takes the ceiling to the floor 4 = max, not below: the deposit that follows
+   still finds the full balance 4) *)
+Example builder_default_floor :
+  run_script [3; -1; 4; 1; 5; 0; 1; 3; 0; 0; 1; 0; 2; 0; 1; 1; 0; 0]
+  = [0; 2; 4; 3; 0; 4; 0].
+Proof. vm_compute. reflexivity. Qed.
+
 (* the script interface on the defect-shaped corpus entry *)
 Example script_example :
   run_script [0; 5; 2; 0; 0; 0; 0; 0; 2; 1; 1; 0; 1; 0; 0; 5; 0; 1; 1; 0; 0]
